@@ -161,7 +161,7 @@ class TostringMonitor(Monitor):
 
 def setup(concepts, spec):
     attach.attach_ctor(concepts)
-    attach.attach(concepts.contexts.Context, 'relations', RelationsMonitor())
+    attach.attach(concepts.Context, 'relations', RelationsMonitor())
     attach.attach(concepts.junctors.Relations, '__str__', StrMonitor())
     attach.attach(concepts.junctors.Relations, 'tostring', TostringMonitor())
     global POOL
